@@ -613,6 +613,9 @@ var fmtCorpus = []string{
 	"w:any\nw = 1\nprint w.(num) -w.(num) !true\n",
 	"m := {a:1}\nm.a = 2\nm[\"b\"] = 3\nprint m.a m[\"b\"]\n",
 	"print 1 // trailing ws in comment   \t\n",
+	"print 1 \r\nprint 2 // c \r\n \r\nprint 3\u00a0// nbsp before comment is an illegal character\n",
+	"print 1 \r\nprint 2 // c \r\n \r\n",
+	"print \"tab\there\" \"\\\"q\\\"\" \"\\\\\"\n",
 	"func f\n    print 1\n    return\nend\n\n\n\nf\n",
 	"x := 1\n\n\n\n\nprint x\n",
 	"if true\n\n\n    print 1\n\n\nend\n",
